@@ -8,7 +8,7 @@
 From Coq Require Import ZArith Bool List.
 From ArmV Require Import Lib.PyZ Lib.Monad Lib.Machine Spec.Pseudocode Spec.Arch Spec.MachineView Spec.Branches Spec.StepFrame
   Spec.OperandSpec Spec.DPSem Proofs.StateLemmas Proofs.CondProofs Proofs.GuardProofs Proofs.DPLemmas Proofs.StepProofs Proofs.StepDP
-  Proofs.StepInstances Proofs.StepInstancesArm Proofs.StepInstancesThumb Proofs.StepInstancesExample.
+  Proofs.StepInstances Proofs.StepInstancesArm Proofs.StepInstancesThumb Proofs.DPRange Proofs.StepDPReg Proofs.StepInstancesArmReg Proofs.StepInstancesCmp Proofs.StepInstancesArmRsr Proofs.StepInstancesThumbReg Proofs.StepInstancesMov Proofs.StepInstancesThumb2 Proofs.MemProofs Proofs.StepFetch Proofs.StepClosed Proofs.StepInstancesExample.
 From Gen Require Import enums opsyn core exec conc decoders step.
 Import ListNotations.
 Open Scope Z_scope.
@@ -197,6 +197,637 @@ Theorem C01_subImmediateThumbT2_step cfg s w s1 :
     pc_of (AdvancePC (it_step_after s1 s2)) = add32 (pc_of s1) 2.
 Proof. exact (subImmediateThumbT2_step cfg s w s1). Qed.
 Print Assumptions C01_subImmediateThumbT2_step.
+
+(* any operand form (immediate, shifted register, register-shifted register, plain register), Rd != PC *)
+Theorem C01_dp_step cfg s w s1 enc op opA S d n o :
+  ArmV6_fetch_instruction cfg s = Ok w s1 ->
+  ArmV6_decode_instruction w s1 = Ok (Some enc) s1 ->
+  from_bitarray_dispatch cfg enc w s1 = Ok (Some op) s1 ->
+  execute_dispatch cfg op (begin_instr s1 op) = dp_sem cfg opA S (Some d) n o (begin_instr s1 op) ->
+  ictx cfg s1 -> 0 <= d <= 14 -> 0 <= n <= 15 -> op2_valid o ->
+  exists s2,
+    dp_sem cfg opA S (Some d) n o (begin_instr s1 op) = Ok tt s2 /\
+    ArmV6_emulate_cycle cfg s = Ok tt (AdvancePC (it_step_after s1 s2)) /\
+    pc_of (AdvancePC (it_step_after s1 s2)) = add32 (pc_of s1) (opcode_len s1 / 8).
+Proof. exact (dp_step cfg s w s1 enc op opA S d n o). Qed.
+Print Assumptions C01_dp_step.
+
+(* the ARM data-processing (register) encodings with a destination: <op>{S}<c> Rd, Rn, Rm{, <shift> #imm5} (A1, bit 4 = 0) *)
+Theorem C01_andRegisterA1_step cfg s w s1 :
+  ArmV6_fetch_instruction cfg s = Ok w s1 ->
+  0 <= w < 2 ^ 32 -> is_dp_reg_a1 0 0 0 0 w -> iset_of s1 = 0 -> ictx cfg s1 -> cond_holds s1 ->
+  let d := bits w 15 12 in let n := bits w 19 16 in let m := bits w 3 0 in
+  let sh := DecodeImmShift (bits w 6 5) (bits w 11 7) in
+  let op := (code_AndRegister, [w; bit w 20; m; d; n; fst sh; snd sh]) in
+  exists s2,
+    dp_sem cfg AND (bit w 20) (Some d) n (Op2Reg m (fst sh) (snd sh)) (begin_instr s1 op) = Ok tt s2 /\
+    ArmV6_emulate_cycle cfg s = Ok tt (AdvancePC (it_step_after s1 s2)) /\
+    pc_of (AdvancePC (it_step_after s1 s2)) = add32 (pc_of s1) (opcode_len s1 / 8).
+Proof. exact (andRegisterA1_step cfg s w s1). Qed.
+Print Assumptions C01_andRegisterA1_step.
+Theorem C01_eorRegisterA1_step cfg s w s1 :
+  ArmV6_fetch_instruction cfg s = Ok w s1 ->
+  0 <= w < 2 ^ 32 -> is_dp_reg_a1 0 0 0 1 w -> iset_of s1 = 0 -> ictx cfg s1 -> cond_holds s1 ->
+  let d := bits w 15 12 in let n := bits w 19 16 in let m := bits w 3 0 in
+  let sh := DecodeImmShift (bits w 6 5) (bits w 11 7) in
+  let op := (code_EorRegister, [w; bit w 20; m; d; n; fst sh; snd sh]) in
+  exists s2,
+    dp_sem cfg EOR (bit w 20) (Some d) n (Op2Reg m (fst sh) (snd sh)) (begin_instr s1 op) = Ok tt s2 /\
+    ArmV6_emulate_cycle cfg s = Ok tt (AdvancePC (it_step_after s1 s2)) /\
+    pc_of (AdvancePC (it_step_after s1 s2)) = add32 (pc_of s1) (opcode_len s1 / 8).
+Proof. exact (eorRegisterA1_step cfg s w s1). Qed.
+Print Assumptions C01_eorRegisterA1_step.
+Theorem C01_subRegisterA1_step cfg s w s1 :
+  ArmV6_fetch_instruction cfg s = Ok w s1 ->
+  0 <= w < 2 ^ 32 -> is_dp_reg_a1 0 0 1 0 w -> iset_of s1 = 0 -> ictx cfg s1 -> cond_holds s1 ->
+  let d := bits w 15 12 in let n := bits w 19 16 in let m := bits w 3 0 in
+  let sh := DecodeImmShift (bits w 6 5) (bits w 11 7) in
+  let op := (code_SubRegister, [w; bit w 20; m; d; n; fst sh; snd sh]) in
+  exists s2,
+    dp_sem cfg SUB (bit w 20) (Some d) n (Op2Reg m (fst sh) (snd sh)) (begin_instr s1 op) = Ok tt s2 /\
+    ArmV6_emulate_cycle cfg s = Ok tt (AdvancePC (it_step_after s1 s2)) /\
+    pc_of (AdvancePC (it_step_after s1 s2)) = add32 (pc_of s1) (opcode_len s1 / 8).
+Proof. exact (subRegisterA1_step cfg s w s1). Qed.
+Print Assumptions C01_subRegisterA1_step.
+Theorem C01_rsbRegisterA1_step cfg s w s1 :
+  ArmV6_fetch_instruction cfg s = Ok w s1 ->
+  0 <= w < 2 ^ 32 -> is_dp_reg_a1 0 0 1 1 w -> iset_of s1 = 0 -> ictx cfg s1 -> cond_holds s1 ->
+  let d := bits w 15 12 in let n := bits w 19 16 in let m := bits w 3 0 in
+  let sh := DecodeImmShift (bits w 6 5) (bits w 11 7) in
+  let op := (code_RsbRegister, [w; bit w 20; m; d; n; fst sh; snd sh]) in
+  exists s2,
+    dp_sem cfg RSB (bit w 20) (Some d) n (Op2Reg m (fst sh) (snd sh)) (begin_instr s1 op) = Ok tt s2 /\
+    ArmV6_emulate_cycle cfg s = Ok tt (AdvancePC (it_step_after s1 s2)) /\
+    pc_of (AdvancePC (it_step_after s1 s2)) = add32 (pc_of s1) (opcode_len s1 / 8).
+Proof. exact (rsbRegisterA1_step cfg s w s1). Qed.
+Print Assumptions C01_rsbRegisterA1_step.
+Theorem C01_addRegisterArmA1_step cfg s w s1 :
+  ArmV6_fetch_instruction cfg s = Ok w s1 ->
+  0 <= w < 2 ^ 32 -> is_dp_reg_a1 0 1 0 0 w -> iset_of s1 = 0 -> ictx cfg s1 -> cond_holds s1 ->
+  let d := bits w 15 12 in let n := bits w 19 16 in let m := bits w 3 0 in
+  let sh := DecodeImmShift (bits w 6 5) (bits w 11 7) in
+  let op := (code_AddRegisterArm, [w; bit w 20; m; d; n; fst sh; snd sh]) in
+  exists s2,
+    dp_sem cfg ADD (bit w 20) (Some d) n (Op2Reg m (fst sh) (snd sh)) (begin_instr s1 op) = Ok tt s2 /\
+    ArmV6_emulate_cycle cfg s = Ok tt (AdvancePC (it_step_after s1 s2)) /\
+    pc_of (AdvancePC (it_step_after s1 s2)) = add32 (pc_of s1) (opcode_len s1 / 8).
+Proof. exact (addRegisterArmA1_step cfg s w s1). Qed.
+Print Assumptions C01_addRegisterArmA1_step.
+Theorem C01_adcRegisterA1_step cfg s w s1 :
+  ArmV6_fetch_instruction cfg s = Ok w s1 ->
+  0 <= w < 2 ^ 32 -> is_dp_reg_a1 0 1 0 1 w -> iset_of s1 = 0 -> ictx cfg s1 -> cond_holds s1 ->
+  let d := bits w 15 12 in let n := bits w 19 16 in let m := bits w 3 0 in
+  let sh := DecodeImmShift (bits w 6 5) (bits w 11 7) in
+  let op := (code_AdcRegister, [w; bit w 20; m; d; n; fst sh; snd sh]) in
+  exists s2,
+    dp_sem cfg ADC (bit w 20) (Some d) n (Op2Reg m (fst sh) (snd sh)) (begin_instr s1 op) = Ok tt s2 /\
+    ArmV6_emulate_cycle cfg s = Ok tt (AdvancePC (it_step_after s1 s2)) /\
+    pc_of (AdvancePC (it_step_after s1 s2)) = add32 (pc_of s1) (opcode_len s1 / 8).
+Proof. exact (adcRegisterA1_step cfg s w s1). Qed.
+Print Assumptions C01_adcRegisterA1_step.
+Theorem C01_sbcRegisterA1_step cfg s w s1 :
+  ArmV6_fetch_instruction cfg s = Ok w s1 ->
+  0 <= w < 2 ^ 32 -> is_dp_reg_a1 0 1 1 0 w -> iset_of s1 = 0 -> ictx cfg s1 -> cond_holds s1 ->
+  let d := bits w 15 12 in let n := bits w 19 16 in let m := bits w 3 0 in
+  let sh := DecodeImmShift (bits w 6 5) (bits w 11 7) in
+  let op := (code_SbcRegister, [w; bit w 20; m; d; n; fst sh; snd sh]) in
+  exists s2,
+    dp_sem cfg SBC (bit w 20) (Some d) n (Op2Reg m (fst sh) (snd sh)) (begin_instr s1 op) = Ok tt s2 /\
+    ArmV6_emulate_cycle cfg s = Ok tt (AdvancePC (it_step_after s1 s2)) /\
+    pc_of (AdvancePC (it_step_after s1 s2)) = add32 (pc_of s1) (opcode_len s1 / 8).
+Proof. exact (sbcRegisterA1_step cfg s w s1). Qed.
+Print Assumptions C01_sbcRegisterA1_step.
+Theorem C01_rscRegisterA1_step cfg s w s1 :
+  ArmV6_fetch_instruction cfg s = Ok w s1 ->
+  0 <= w < 2 ^ 32 -> is_dp_reg_a1 0 1 1 1 w -> iset_of s1 = 0 -> ictx cfg s1 -> cond_holds s1 ->
+  let d := bits w 15 12 in let n := bits w 19 16 in let m := bits w 3 0 in
+  let sh := DecodeImmShift (bits w 6 5) (bits w 11 7) in
+  let op := (code_RscRegister, [w; bit w 20; m; d; n; fst sh; snd sh]) in
+  exists s2,
+    dp_sem cfg RSC (bit w 20) (Some d) n (Op2Reg m (fst sh) (snd sh)) (begin_instr s1 op) = Ok tt s2 /\
+    ArmV6_emulate_cycle cfg s = Ok tt (AdvancePC (it_step_after s1 s2)) /\
+    pc_of (AdvancePC (it_step_after s1 s2)) = add32 (pc_of s1) (opcode_len s1 / 8).
+Proof. exact (rscRegisterA1_step cfg s w s1). Qed.
+Print Assumptions C01_rscRegisterA1_step.
+Theorem C01_orrRegisterA1_step cfg s w s1 :
+  ArmV6_fetch_instruction cfg s = Ok w s1 ->
+  0 <= w < 2 ^ 32 -> is_dp_reg_a1 1 1 0 0 w -> iset_of s1 = 0 -> ictx cfg s1 -> cond_holds s1 ->
+  let d := bits w 15 12 in let n := bits w 19 16 in let m := bits w 3 0 in
+  let sh := DecodeImmShift (bits w 6 5) (bits w 11 7) in
+  let op := (code_OrrRegister, [w; bit w 20; m; d; n; fst sh; snd sh]) in
+  exists s2,
+    dp_sem cfg ORR (bit w 20) (Some d) n (Op2Reg m (fst sh) (snd sh)) (begin_instr s1 op) = Ok tt s2 /\
+    ArmV6_emulate_cycle cfg s = Ok tt (AdvancePC (it_step_after s1 s2)) /\
+    pc_of (AdvancePC (it_step_after s1 s2)) = add32 (pc_of s1) (opcode_len s1 / 8).
+Proof. exact (orrRegisterA1_step cfg s w s1). Qed.
+Print Assumptions C01_orrRegisterA1_step.
+Theorem C01_bicRegisterA1_step cfg s w s1 :
+  ArmV6_fetch_instruction cfg s = Ok w s1 ->
+  0 <= w < 2 ^ 32 -> is_dp_reg_a1 1 1 1 0 w -> iset_of s1 = 0 -> ictx cfg s1 -> cond_holds s1 ->
+  let d := bits w 15 12 in let n := bits w 19 16 in let m := bits w 3 0 in
+  let sh := DecodeImmShift (bits w 6 5) (bits w 11 7) in
+  let op := (code_BicRegister, [w; bit w 20; m; d; n; fst sh; snd sh]) in
+  exists s2,
+    dp_sem cfg BIC (bit w 20) (Some d) n (Op2Reg m (fst sh) (snd sh)) (begin_instr s1 op) = Ok tt s2 /\
+    ArmV6_emulate_cycle cfg s = Ok tt (AdvancePC (it_step_after s1 s2)) /\
+    pc_of (AdvancePC (it_step_after s1 s2)) = add32 (pc_of s1) (opcode_len s1 / 8).
+Proof. exact (bicRegisterA1_step cfg s w s1). Qed.
+Print Assumptions C01_bicRegisterA1_step.
+
+(* comparisons (no destination): flags only — every register but the PC is unchanged *)
+Theorem C01_dp_cmp_step cfg s w s1 enc op opA S n o :
+  ArmV6_fetch_instruction cfg s = Ok w s1 ->
+  ArmV6_decode_instruction w s1 = Ok (Some enc) s1 ->
+  from_bitarray_dispatch cfg enc w s1 = Ok (Some op) s1 ->
+  execute_dispatch cfg op (begin_instr s1 op) = dp_sem cfg opA S None n o (begin_instr s1 op) ->
+  ictx cfg s1 -> 0 <= n <= 15 -> op2_valid o ->
+  exists s2,
+    dp_sem cfg opA S None n o (begin_instr s1 op) = Ok tt s2 /\
+    ArmV6_emulate_cycle cfg s = Ok tt (AdvancePC (it_step_after s1 s2)) /\
+    pc_of (AdvancePC (it_step_after s1 s2)) = add32 (pc_of s1) (opcode_len s1 / 8) /\
+    (forall k, 0 <= k -> k <> pc_index -> getl (R (AdvancePC (it_step_after s1 s2))) k = getl (R s1) k).
+Proof. exact (dp_cmp_step cfg s w s1 enc op opA S n o). Qed.
+Print Assumptions C01_dp_cmp_step.
+
+(* TST, TEQ, CMP, CMN (immediate, ARM A1): cond != 1111, 00110 opc 1, Rn in r0-r12 *)
+Theorem C01_tstImmediateA1_step cfg s w s1 :
+  ArmV6_fetch_instruction cfg s = Ok w s1 ->
+  0 <= w < 2 ^ 32 -> is_cmp_imm_a1 1 0 0 0 w -> iset_of s1 = 0 -> ictx cfg s1 -> cond_holds s1 ->
+  let n := bits w 19 16 in let imm32 := ARMExpandImm (bits w 11 0) in let c := (snd (ARMExpandImm_C (bits w 11 0) (cflag s1))) in
+  let op := (code_TstImmediate, [w; bits w 19 16; ARMExpandImm (bits w 11 0); snd (ARMExpandImm_C (bits w 11 0) (cflag s1))]) in
+  exists s2,
+    dp_sem cfg AND 1 None n (Op2Imm imm32 c) (begin_instr s1 op) = Ok tt s2 /\
+    ArmV6_emulate_cycle cfg s = Ok tt (AdvancePC (it_step_after s1 s2)) /\
+    pc_of (AdvancePC (it_step_after s1 s2)) = add32 (pc_of s1) (opcode_len s1 / 8) /\
+    (forall k, 0 <= k -> k <> pc_index -> getl (R (AdvancePC (it_step_after s1 s2))) k = getl (R s1) k).
+Proof. exact (tstImmediateA1_step cfg s w s1). Qed.
+Print Assumptions C01_tstImmediateA1_step.
+Theorem C01_teqImmediateA1_step cfg s w s1 :
+  ArmV6_fetch_instruction cfg s = Ok w s1 ->
+  0 <= w < 2 ^ 32 -> is_cmp_imm_a1 1 0 0 1 w -> iset_of s1 = 0 -> ictx cfg s1 -> cond_holds s1 ->
+  let n := bits w 19 16 in let imm32 := ARMExpandImm (bits w 11 0) in let c := (snd (ARMExpandImm_C (bits w 11 0) (cflag s1))) in
+  let op := (code_TeqImmediate, [w; bits w 19 16; ARMExpandImm (bits w 11 0); snd (ARMExpandImm_C (bits w 11 0) (cflag s1))]) in
+  exists s2,
+    dp_sem cfg EOR 1 None n (Op2Imm imm32 c) (begin_instr s1 op) = Ok tt s2 /\
+    ArmV6_emulate_cycle cfg s = Ok tt (AdvancePC (it_step_after s1 s2)) /\
+    pc_of (AdvancePC (it_step_after s1 s2)) = add32 (pc_of s1) (opcode_len s1 / 8) /\
+    (forall k, 0 <= k -> k <> pc_index -> getl (R (AdvancePC (it_step_after s1 s2))) k = getl (R s1) k).
+Proof. exact (teqImmediateA1_step cfg s w s1). Qed.
+Print Assumptions C01_teqImmediateA1_step.
+Theorem C01_cmpImmediateA1_step cfg s w s1 :
+  ArmV6_fetch_instruction cfg s = Ok w s1 ->
+  0 <= w < 2 ^ 32 -> is_cmp_imm_a1 1 0 1 0 w -> iset_of s1 = 0 -> ictx cfg s1 -> cond_holds s1 ->
+  let n := bits w 19 16 in let imm32 := ARMExpandImm (bits w 11 0) in let c := 0 in
+  let op := (code_CmpImmediate, [w; bits w 19 16; ARMExpandImm (bits w 11 0)]) in
+  exists s2,
+    dp_sem cfg SUB 1 None n (Op2Imm imm32 c) (begin_instr s1 op) = Ok tt s2 /\
+    ArmV6_emulate_cycle cfg s = Ok tt (AdvancePC (it_step_after s1 s2)) /\
+    pc_of (AdvancePC (it_step_after s1 s2)) = add32 (pc_of s1) (opcode_len s1 / 8) /\
+    (forall k, 0 <= k -> k <> pc_index -> getl (R (AdvancePC (it_step_after s1 s2))) k = getl (R s1) k).
+Proof. exact (cmpImmediateA1_step cfg s w s1). Qed.
+Print Assumptions C01_cmpImmediateA1_step.
+Theorem C01_cmnImmediateA1_step cfg s w s1 :
+  ArmV6_fetch_instruction cfg s = Ok w s1 ->
+  0 <= w < 2 ^ 32 -> is_cmp_imm_a1 1 0 1 1 w -> iset_of s1 = 0 -> ictx cfg s1 -> cond_holds s1 ->
+  let n := bits w 19 16 in let imm32 := ARMExpandImm (bits w 11 0) in let c := 0 in
+  let op := (code_CmnImmediate, [w; bits w 19 16; ARMExpandImm (bits w 11 0)]) in
+  exists s2,
+    dp_sem cfg ADD 1 None n (Op2Imm imm32 c) (begin_instr s1 op) = Ok tt s2 /\
+    ArmV6_emulate_cycle cfg s = Ok tt (AdvancePC (it_step_after s1 s2)) /\
+    pc_of (AdvancePC (it_step_after s1 s2)) = add32 (pc_of s1) (opcode_len s1 / 8) /\
+    (forall k, 0 <= k -> k <> pc_index -> getl (R (AdvancePC (it_step_after s1 s2))) k = getl (R s1) k).
+Proof. exact (cmnImmediateA1_step cfg s w s1). Qed.
+Print Assumptions C01_cmnImmediateA1_step.
+
+(* the ARM data-processing (register-shifted register) encodings: <op>{S}<c> Rd, Rn, Rm, <type> Rs (A1, bit 7 = 0, bit 4 = 1) *)
+Theorem C01_andRegisterShiftedRegisterA1_step cfg s w s1 :
+  ArmV6_fetch_instruction cfg s = Ok w s1 ->
+  0 <= w < 2 ^ 32 -> is_dp_rsr_a1 0 0 0 0 w -> iset_of s1 = 0 -> ictx cfg s1 -> cond_holds s1 ->
+  let d := bits w 15 12 in let n := bits w 19 16 in let m := bits w 3 0 in let rs := bits w 11 8 in
+  let st := DecodeRegShift (bits w 6 5) in
+  let op := (code_AndRegisterShiftedRegister, [w; bit w 20; m; rs; d; n; st]) in
+  exists s2,
+    dp_sem cfg AND (bit w 20) (Some d) n (Op2RegReg m st rs) (begin_instr s1 op) = Ok tt s2 /\
+    ArmV6_emulate_cycle cfg s = Ok tt (AdvancePC (it_step_after s1 s2)) /\
+    pc_of (AdvancePC (it_step_after s1 s2)) = add32 (pc_of s1) (opcode_len s1 / 8).
+Proof. exact (andRegisterShiftedRegisterA1_step cfg s w s1). Qed.
+Print Assumptions C01_andRegisterShiftedRegisterA1_step.
+Theorem C01_eorRegisterShiftedRegisterA1_step cfg s w s1 :
+  ArmV6_fetch_instruction cfg s = Ok w s1 ->
+  0 <= w < 2 ^ 32 -> is_dp_rsr_a1 0 0 0 1 w -> iset_of s1 = 0 -> ictx cfg s1 -> cond_holds s1 ->
+  let d := bits w 15 12 in let n := bits w 19 16 in let m := bits w 3 0 in let rs := bits w 11 8 in
+  let st := DecodeRegShift (bits w 6 5) in
+  let op := (code_EorRegisterShiftedRegister, [w; bit w 20; m; rs; d; n; st]) in
+  exists s2,
+    dp_sem cfg EOR (bit w 20) (Some d) n (Op2RegReg m st rs) (begin_instr s1 op) = Ok tt s2 /\
+    ArmV6_emulate_cycle cfg s = Ok tt (AdvancePC (it_step_after s1 s2)) /\
+    pc_of (AdvancePC (it_step_after s1 s2)) = add32 (pc_of s1) (opcode_len s1 / 8).
+Proof. exact (eorRegisterShiftedRegisterA1_step cfg s w s1). Qed.
+Print Assumptions C01_eorRegisterShiftedRegisterA1_step.
+Theorem C01_subRegisterShiftedRegisterA1_step cfg s w s1 :
+  ArmV6_fetch_instruction cfg s = Ok w s1 ->
+  0 <= w < 2 ^ 32 -> is_dp_rsr_a1 0 0 1 0 w -> iset_of s1 = 0 -> ictx cfg s1 -> cond_holds s1 ->
+  let d := bits w 15 12 in let n := bits w 19 16 in let m := bits w 3 0 in let rs := bits w 11 8 in
+  let st := DecodeRegShift (bits w 6 5) in
+  let op := (code_SubRegisterShiftedRegister, [w; bit w 20; m; rs; d; n; st]) in
+  exists s2,
+    dp_sem cfg SUB (bit w 20) (Some d) n (Op2RegReg m st rs) (begin_instr s1 op) = Ok tt s2 /\
+    ArmV6_emulate_cycle cfg s = Ok tt (AdvancePC (it_step_after s1 s2)) /\
+    pc_of (AdvancePC (it_step_after s1 s2)) = add32 (pc_of s1) (opcode_len s1 / 8).
+Proof. exact (subRegisterShiftedRegisterA1_step cfg s w s1). Qed.
+Print Assumptions C01_subRegisterShiftedRegisterA1_step.
+Theorem C01_rsbRegisterShiftedRegisterA1_step cfg s w s1 :
+  ArmV6_fetch_instruction cfg s = Ok w s1 ->
+  0 <= w < 2 ^ 32 -> is_dp_rsr_a1 0 0 1 1 w -> iset_of s1 = 0 -> ictx cfg s1 -> cond_holds s1 ->
+  let d := bits w 15 12 in let n := bits w 19 16 in let m := bits w 3 0 in let rs := bits w 11 8 in
+  let st := DecodeRegShift (bits w 6 5) in
+  let op := (code_RsbRegisterShiftedRegister, [w; bit w 20; m; rs; d; n; st]) in
+  exists s2,
+    dp_sem cfg RSB (bit w 20) (Some d) n (Op2RegReg m st rs) (begin_instr s1 op) = Ok tt s2 /\
+    ArmV6_emulate_cycle cfg s = Ok tt (AdvancePC (it_step_after s1 s2)) /\
+    pc_of (AdvancePC (it_step_after s1 s2)) = add32 (pc_of s1) (opcode_len s1 / 8).
+Proof. exact (rsbRegisterShiftedRegisterA1_step cfg s w s1). Qed.
+Print Assumptions C01_rsbRegisterShiftedRegisterA1_step.
+Theorem C01_addRegisterShiftedRegisterA1_step cfg s w s1 :
+  ArmV6_fetch_instruction cfg s = Ok w s1 ->
+  0 <= w < 2 ^ 32 -> is_dp_rsr_a1 0 1 0 0 w -> iset_of s1 = 0 -> ictx cfg s1 -> cond_holds s1 ->
+  let d := bits w 15 12 in let n := bits w 19 16 in let m := bits w 3 0 in let rs := bits w 11 8 in
+  let st := DecodeRegShift (bits w 6 5) in
+  let op := (code_AddRegisterShiftedRegister, [w; bit w 20; m; rs; d; n; st]) in
+  exists s2,
+    dp_sem cfg ADD (bit w 20) (Some d) n (Op2RegReg m st rs) (begin_instr s1 op) = Ok tt s2 /\
+    ArmV6_emulate_cycle cfg s = Ok tt (AdvancePC (it_step_after s1 s2)) /\
+    pc_of (AdvancePC (it_step_after s1 s2)) = add32 (pc_of s1) (opcode_len s1 / 8).
+Proof. exact (addRegisterShiftedRegisterA1_step cfg s w s1). Qed.
+Print Assumptions C01_addRegisterShiftedRegisterA1_step.
+Theorem C01_adcRegisterShiftedRegisterA1_step cfg s w s1 :
+  ArmV6_fetch_instruction cfg s = Ok w s1 ->
+  0 <= w < 2 ^ 32 -> is_dp_rsr_a1 0 1 0 1 w -> iset_of s1 = 0 -> ictx cfg s1 -> cond_holds s1 ->
+  let d := bits w 15 12 in let n := bits w 19 16 in let m := bits w 3 0 in let rs := bits w 11 8 in
+  let st := DecodeRegShift (bits w 6 5) in
+  let op := (code_AdcRegisterShiftedRegister, [w; bit w 20; m; rs; d; n; st]) in
+  exists s2,
+    dp_sem cfg ADC (bit w 20) (Some d) n (Op2RegReg m st rs) (begin_instr s1 op) = Ok tt s2 /\
+    ArmV6_emulate_cycle cfg s = Ok tt (AdvancePC (it_step_after s1 s2)) /\
+    pc_of (AdvancePC (it_step_after s1 s2)) = add32 (pc_of s1) (opcode_len s1 / 8).
+Proof. exact (adcRegisterShiftedRegisterA1_step cfg s w s1). Qed.
+Print Assumptions C01_adcRegisterShiftedRegisterA1_step.
+Theorem C01_sbcRegisterShiftedRegisterA1_step cfg s w s1 :
+  ArmV6_fetch_instruction cfg s = Ok w s1 ->
+  0 <= w < 2 ^ 32 -> is_dp_rsr_a1 0 1 1 0 w -> iset_of s1 = 0 -> ictx cfg s1 -> cond_holds s1 ->
+  let d := bits w 15 12 in let n := bits w 19 16 in let m := bits w 3 0 in let rs := bits w 11 8 in
+  let st := DecodeRegShift (bits w 6 5) in
+  let op := (code_SbcRegisterShiftedRegister, [w; bit w 20; m; rs; d; n; st]) in
+  exists s2,
+    dp_sem cfg SBC (bit w 20) (Some d) n (Op2RegReg m st rs) (begin_instr s1 op) = Ok tt s2 /\
+    ArmV6_emulate_cycle cfg s = Ok tt (AdvancePC (it_step_after s1 s2)) /\
+    pc_of (AdvancePC (it_step_after s1 s2)) = add32 (pc_of s1) (opcode_len s1 / 8).
+Proof. exact (sbcRegisterShiftedRegisterA1_step cfg s w s1). Qed.
+Print Assumptions C01_sbcRegisterShiftedRegisterA1_step.
+Theorem C01_rscRegisterShiftedRegisterA1_step cfg s w s1 :
+  ArmV6_fetch_instruction cfg s = Ok w s1 ->
+  0 <= w < 2 ^ 32 -> is_dp_rsr_a1 0 1 1 1 w -> iset_of s1 = 0 -> ictx cfg s1 -> cond_holds s1 ->
+  let d := bits w 15 12 in let n := bits w 19 16 in let m := bits w 3 0 in let rs := bits w 11 8 in
+  let st := DecodeRegShift (bits w 6 5) in
+  let op := (code_RscRegisterShiftedRegister, [w; bit w 20; m; rs; d; n; st]) in
+  exists s2,
+    dp_sem cfg RSC (bit w 20) (Some d) n (Op2RegReg m st rs) (begin_instr s1 op) = Ok tt s2 /\
+    ArmV6_emulate_cycle cfg s = Ok tt (AdvancePC (it_step_after s1 s2)) /\
+    pc_of (AdvancePC (it_step_after s1 s2)) = add32 (pc_of s1) (opcode_len s1 / 8).
+Proof. exact (rscRegisterShiftedRegisterA1_step cfg s w s1). Qed.
+Print Assumptions C01_rscRegisterShiftedRegisterA1_step.
+Theorem C01_orrRegisterShiftedRegisterA1_step cfg s w s1 :
+  ArmV6_fetch_instruction cfg s = Ok w s1 ->
+  0 <= w < 2 ^ 32 -> is_dp_rsr_a1 1 1 0 0 w -> iset_of s1 = 0 -> ictx cfg s1 -> cond_holds s1 ->
+  let d := bits w 15 12 in let n := bits w 19 16 in let m := bits w 3 0 in let rs := bits w 11 8 in
+  let st := DecodeRegShift (bits w 6 5) in
+  let op := (code_OrrRegisterShiftedRegister, [w; bit w 20; m; rs; d; n; st]) in
+  exists s2,
+    dp_sem cfg ORR (bit w 20) (Some d) n (Op2RegReg m st rs) (begin_instr s1 op) = Ok tt s2 /\
+    ArmV6_emulate_cycle cfg s = Ok tt (AdvancePC (it_step_after s1 s2)) /\
+    pc_of (AdvancePC (it_step_after s1 s2)) = add32 (pc_of s1) (opcode_len s1 / 8).
+Proof. exact (orrRegisterShiftedRegisterA1_step cfg s w s1). Qed.
+Print Assumptions C01_orrRegisterShiftedRegisterA1_step.
+Theorem C01_bicRegisterShiftedRegisterA1_step cfg s w s1 :
+  ArmV6_fetch_instruction cfg s = Ok w s1 ->
+  0 <= w < 2 ^ 32 -> is_dp_rsr_a1 1 1 1 0 w -> iset_of s1 = 0 -> ictx cfg s1 -> cond_holds s1 ->
+  let d := bits w 15 12 in let n := bits w 19 16 in let m := bits w 3 0 in let rs := bits w 11 8 in
+  let st := DecodeRegShift (bits w 6 5) in
+  let op := (code_BicRegisterShiftedRegister, [w; bit w 20; m; rs; d; n; st]) in
+  exists s2,
+    dp_sem cfg BIC (bit w 20) (Some d) n (Op2RegReg m st rs) (begin_instr s1 op) = Ok tt s2 /\
+    ArmV6_emulate_cycle cfg s = Ok tt (AdvancePC (it_step_after s1 s2)) /\
+    pc_of (AdvancePC (it_step_after s1 s2)) = add32 (pc_of s1) (opcode_len s1 / 8).
+Proof. exact (bicRegisterShiftedRegisterA1_step cfg s w s1). Qed.
+Print Assumptions C01_bicRegisterShiftedRegisterA1_step.
+
+(* the 16-bit Thumb data-processing (register) encodings 010000 opc Rm Rdn: ANDS, EORS, ADCS, SBCS, ORRS, BICS (flags = !InITBlock())
+   and the comparisons TST, CMP, CMN, in any IT position *)
+Theorem C01_andRegisterT1_step cfg s w s1 :
+  ArmV6_fetch_instruction cfg s = Ok w s1 ->
+  0 <= w < 2 ^ 16 -> is_dp_t16 0 w -> iset_of s1 = 1 -> opcode_len s1 = 16 -> ictx cfg s1 -> cond_holds s1 ->
+  let dn := bits w 2 0 in let m := bits w 5 3 in
+  let op := (code_AndRegister, [w; not_in_it s1; m; dn; dn; 1; 0]) in
+  exists s2,
+    dp_sem cfg AND (not_in_it s1) (Some dn) dn (Op2Reg m SRType_LSL 0) (begin_instr s1 op) = Ok tt s2 /\
+    ArmV6_emulate_cycle cfg s = Ok tt (AdvancePC (it_step_after s1 s2)) /\
+    pc_of (AdvancePC (it_step_after s1 s2)) = add32 (pc_of s1) 2.
+Proof. exact (andRegisterT1_step cfg s w s1). Qed.
+Print Assumptions C01_andRegisterT1_step.
+Theorem C01_eorRegisterT1_step cfg s w s1 :
+  ArmV6_fetch_instruction cfg s = Ok w s1 ->
+  0 <= w < 2 ^ 16 -> is_dp_t16 1 w -> iset_of s1 = 1 -> opcode_len s1 = 16 -> ictx cfg s1 -> cond_holds s1 ->
+  let dn := bits w 2 0 in let m := bits w 5 3 in
+  let op := (code_EorRegister, [w; not_in_it s1; m; dn; dn; 1; 0]) in
+  exists s2,
+    dp_sem cfg EOR (not_in_it s1) (Some dn) dn (Op2Reg m SRType_LSL 0) (begin_instr s1 op) = Ok tt s2 /\
+    ArmV6_emulate_cycle cfg s = Ok tt (AdvancePC (it_step_after s1 s2)) /\
+    pc_of (AdvancePC (it_step_after s1 s2)) = add32 (pc_of s1) 2.
+Proof. exact (eorRegisterT1_step cfg s w s1). Qed.
+Print Assumptions C01_eorRegisterT1_step.
+Theorem C01_adcRegisterT1_step cfg s w s1 :
+  ArmV6_fetch_instruction cfg s = Ok w s1 ->
+  0 <= w < 2 ^ 16 -> is_dp_t16 5 w -> iset_of s1 = 1 -> opcode_len s1 = 16 -> ictx cfg s1 -> cond_holds s1 ->
+  let dn := bits w 2 0 in let m := bits w 5 3 in
+  let op := (code_AdcRegister, [w; not_in_it s1; m; dn; dn; 1; 0]) in
+  exists s2,
+    dp_sem cfg ADC (not_in_it s1) (Some dn) dn (Op2Reg m SRType_LSL 0) (begin_instr s1 op) = Ok tt s2 /\
+    ArmV6_emulate_cycle cfg s = Ok tt (AdvancePC (it_step_after s1 s2)) /\
+    pc_of (AdvancePC (it_step_after s1 s2)) = add32 (pc_of s1) 2.
+Proof. exact (adcRegisterT1_step cfg s w s1). Qed.
+Print Assumptions C01_adcRegisterT1_step.
+Theorem C01_sbcRegisterT1_step cfg s w s1 :
+  ArmV6_fetch_instruction cfg s = Ok w s1 ->
+  0 <= w < 2 ^ 16 -> is_dp_t16 6 w -> iset_of s1 = 1 -> opcode_len s1 = 16 -> ictx cfg s1 -> cond_holds s1 ->
+  let dn := bits w 2 0 in let m := bits w 5 3 in
+  let op := (code_SbcRegister, [w; not_in_it s1; m; dn; dn; 1; 0]) in
+  exists s2,
+    dp_sem cfg SBC (not_in_it s1) (Some dn) dn (Op2Reg m SRType_LSL 0) (begin_instr s1 op) = Ok tt s2 /\
+    ArmV6_emulate_cycle cfg s = Ok tt (AdvancePC (it_step_after s1 s2)) /\
+    pc_of (AdvancePC (it_step_after s1 s2)) = add32 (pc_of s1) 2.
+Proof. exact (sbcRegisterT1_step cfg s w s1). Qed.
+Print Assumptions C01_sbcRegisterT1_step.
+Theorem C01_orrRegisterT1_step cfg s w s1 :
+  ArmV6_fetch_instruction cfg s = Ok w s1 ->
+  0 <= w < 2 ^ 16 -> is_dp_t16 12 w -> iset_of s1 = 1 -> opcode_len s1 = 16 -> ictx cfg s1 -> cond_holds s1 ->
+  let dn := bits w 2 0 in let m := bits w 5 3 in
+  let op := (code_OrrRegister, [w; not_in_it s1; m; dn; dn; 1; 0]) in
+  exists s2,
+    dp_sem cfg ORR (not_in_it s1) (Some dn) dn (Op2Reg m SRType_LSL 0) (begin_instr s1 op) = Ok tt s2 /\
+    ArmV6_emulate_cycle cfg s = Ok tt (AdvancePC (it_step_after s1 s2)) /\
+    pc_of (AdvancePC (it_step_after s1 s2)) = add32 (pc_of s1) 2.
+Proof. exact (orrRegisterT1_step cfg s w s1). Qed.
+Print Assumptions C01_orrRegisterT1_step.
+Theorem C01_bicRegisterT1_step cfg s w s1 :
+  ArmV6_fetch_instruction cfg s = Ok w s1 ->
+  0 <= w < 2 ^ 16 -> is_dp_t16 14 w -> iset_of s1 = 1 -> opcode_len s1 = 16 -> ictx cfg s1 -> cond_holds s1 ->
+  let dn := bits w 2 0 in let m := bits w 5 3 in
+  let op := (code_BicRegister, [w; not_in_it s1; m; dn; dn; 1; 0]) in
+  exists s2,
+    dp_sem cfg BIC (not_in_it s1) (Some dn) dn (Op2Reg m SRType_LSL 0) (begin_instr s1 op) = Ok tt s2 /\
+    ArmV6_emulate_cycle cfg s = Ok tt (AdvancePC (it_step_after s1 s2)) /\
+    pc_of (AdvancePC (it_step_after s1 s2)) = add32 (pc_of s1) 2.
+Proof. exact (bicRegisterT1_step cfg s w s1). Qed.
+Print Assumptions C01_bicRegisterT1_step.
+Theorem C01_tstRegisterT1_step cfg s w s1 :
+  ArmV6_fetch_instruction cfg s = Ok w s1 ->
+  0 <= w < 2 ^ 16 -> is_dp_t16 8 w -> iset_of s1 = 1 -> opcode_len s1 = 16 -> ictx cfg s1 -> cond_holds s1 ->
+  let n := bits w 2 0 in let m := bits w 5 3 in
+  let op := (code_TstRegister, [w; m; n; 1; 0]) in
+  exists s2,
+    dp_sem cfg AND 1 None n (Op2Reg m SRType_LSL 0) (begin_instr s1 op) = Ok tt s2 /\
+    ArmV6_emulate_cycle cfg s = Ok tt (AdvancePC (it_step_after s1 s2)) /\
+    pc_of (AdvancePC (it_step_after s1 s2)) = add32 (pc_of s1) 2 /\
+    (forall k, 0 <= k -> k <> pc_index -> getl (R (AdvancePC (it_step_after s1 s2))) k = getl (R s1) k).
+Proof. exact (tstRegisterT1_step cfg s w s1). Qed.
+Print Assumptions C01_tstRegisterT1_step.
+Theorem C01_cmpRegisterT1_step cfg s w s1 :
+  ArmV6_fetch_instruction cfg s = Ok w s1 ->
+  0 <= w < 2 ^ 16 -> is_dp_t16 10 w -> iset_of s1 = 1 -> opcode_len s1 = 16 -> ictx cfg s1 -> cond_holds s1 ->
+  let n := bits w 2 0 in let m := bits w 5 3 in
+  let op := (code_CmpRegister, [w; m; n; 1; 0]) in
+  exists s2,
+    dp_sem cfg SUB 1 None n (Op2Reg m SRType_LSL 0) (begin_instr s1 op) = Ok tt s2 /\
+    ArmV6_emulate_cycle cfg s = Ok tt (AdvancePC (it_step_after s1 s2)) /\
+    pc_of (AdvancePC (it_step_after s1 s2)) = add32 (pc_of s1) 2 /\
+    (forall k, 0 <= k -> k <> pc_index -> getl (R (AdvancePC (it_step_after s1 s2))) k = getl (R s1) k).
+Proof. exact (cmpRegisterT1_step cfg s w s1). Qed.
+Print Assumptions C01_cmpRegisterT1_step.
+Theorem C01_cmnRegisterT1_step cfg s w s1 :
+  ArmV6_fetch_instruction cfg s = Ok w s1 ->
+  0 <= w < 2 ^ 16 -> is_dp_t16 11 w -> iset_of s1 = 1 -> opcode_len s1 = 16 -> ictx cfg s1 -> cond_holds s1 ->
+  let n := bits w 2 0 in let m := bits w 5 3 in
+  let op := (code_CmnRegister, [w; m; n; 1; 0]) in
+  exists s2,
+    dp_sem cfg ADD 1 None n (Op2Reg m SRType_LSL 0) (begin_instr s1 op) = Ok tt s2 /\
+    ArmV6_emulate_cycle cfg s = Ok tt (AdvancePC (it_step_after s1 s2)) /\
+    pc_of (AdvancePC (it_step_after s1 s2)) = add32 (pc_of s1) 2 /\
+    (forall k, 0 <= k -> k <> pc_index -> getl (R (AdvancePC (it_step_after s1 s2))) k = getl (R s1) k).
+Proof. exact (cmnRegisterT1_step cfg s w s1). Qed.
+Print Assumptions C01_cmnRegisterT1_step.
+
+(* MOV / MVN (immediate, ARM A1) and the 16-bit Thumb MOVS Rd, #imm8 / CMP Rn, #imm8 *)
+Theorem C01_movImmediateA1_step cfg s w s1 :
+  ArmV6_fetch_instruction cfg s = Ok w s1 ->
+  0 <= w < 2 ^ 32 -> is_mov_imm_a1 0 w -> iset_of s1 = 0 -> ictx cfg s1 -> cond_holds s1 ->
+  let d := bits w 15 12 in let imm32 := ARMExpandImm (bits w 11 0) in let c := snd (ARMExpandImm_C (bits w 11 0) (cflag s1)) in
+  let op := (code_MovImmediate, [w; bit w 20; d; imm32; c]) in
+  exists s2,
+    dp_sem cfg MOV (bit w 20) (Some d) 0 (Op2Imm imm32 c) (begin_instr s1 op) = Ok tt s2 /\
+    ArmV6_emulate_cycle cfg s = Ok tt (AdvancePC (it_step_after s1 s2)) /\
+    pc_of (AdvancePC (it_step_after s1 s2)) = add32 (pc_of s1) (opcode_len s1 / 8).
+Proof. exact (movImmediateA1_step cfg s w s1). Qed.
+Print Assumptions C01_movImmediateA1_step.
+Theorem C01_mvnImmediateA1_step cfg s w s1 :
+  ArmV6_fetch_instruction cfg s = Ok w s1 ->
+  0 <= w < 2 ^ 32 -> is_mov_imm_a1 1 w -> iset_of s1 = 0 -> ictx cfg s1 -> cond_holds s1 ->
+  let d := bits w 15 12 in let imm32 := ARMExpandImm (bits w 11 0) in let c := snd (ARMExpandImm_C (bits w 11 0) (cflag s1)) in
+  let op := (code_MvnImmediate, [w; bit w 20; d; imm32; c]) in
+  exists s2,
+    dp_sem cfg MVN (bit w 20) (Some d) 0 (Op2Imm imm32 c) (begin_instr s1 op) = Ok tt s2 /\
+    ArmV6_emulate_cycle cfg s = Ok tt (AdvancePC (it_step_after s1 s2)) /\
+    pc_of (AdvancePC (it_step_after s1 s2)) = add32 (pc_of s1) (opcode_len s1 / 8).
+Proof. exact (mvnImmediateA1_step cfg s w s1). Qed.
+Print Assumptions C01_mvnImmediateA1_step.
+Theorem C01_movImmediateT1_step cfg s w s1 :
+  ArmV6_fetch_instruction cfg s = Ok w s1 ->
+  0 <= w < 2 ^ 16 -> is_t16_op5 4 w -> iset_of s1 = 1 -> opcode_len s1 = 16 -> ictx cfg s1 -> cond_holds s1 ->
+  let d := bits w 10 8 in let imm32 := bits w 7 0 in
+  let op := (code_MovImmediate, [w; not_in_it s1; d; imm32; cflag s1]) in
+  exists s2,
+    dp_sem cfg MOV (not_in_it s1) (Some d) 0 (Op2Imm imm32 (cflag s1)) (begin_instr s1 op) = Ok tt s2 /\
+    ArmV6_emulate_cycle cfg s = Ok tt (AdvancePC (it_step_after s1 s2)) /\
+    pc_of (AdvancePC (it_step_after s1 s2)) = add32 (pc_of s1) 2.
+Proof. exact (movImmediateT1_step cfg s w s1). Qed.
+Print Assumptions C01_movImmediateT1_step.
+Theorem C01_cmpImmediateT1_step cfg s w s1 :
+  ArmV6_fetch_instruction cfg s = Ok w s1 ->
+  0 <= w < 2 ^ 16 -> is_t16_op5 5 w -> iset_of s1 = 1 -> opcode_len s1 = 16 -> ictx cfg s1 -> cond_holds s1 ->
+  let n := bits w 10 8 in let imm32 := bits w 7 0 in
+  let op := (code_CmpImmediate, [w; n; imm32]) in
+  exists s2,
+    dp_sem cfg SUB 1 None n (Op2Imm imm32 0) (begin_instr s1 op) = Ok tt s2 /\
+    ArmV6_emulate_cycle cfg s = Ok tt (AdvancePC (it_step_after s1 s2)) /\
+    pc_of (AdvancePC (it_step_after s1 s2)) = add32 (pc_of s1) 2 /\
+    (forall k, 0 <= k -> k <> pc_index -> getl (R (AdvancePC (it_step_after s1 s2))) k = getl (R s1) k).
+Proof. exact (cmpImmediateT1_step cfg s w s1). Qed.
+Print Assumptions C01_cmpImmediateT1_step.
+
+(* the 32-bit Thumb data-processing (modified immediate) encodings with a destination: 11110 i 0 op S Rn : 0 imm3 Rd imm8 *)
+Theorem C01_andImmediateT1_step cfg s w s1 :
+  ArmV6_fetch_instruction cfg s = Ok w s1 ->
+  0 <= w < 2 ^ 32 -> is_dp_mi_t32 0 0 0 0 w -> iset_of s1 = 1 -> opcode_len s1 = 32 -> ictx cfg s1 -> cond_holds s1 ->
+  let d := bits w 11 8 in let n := bits w 19 16 in let imm32 := ThumbExpandImm (imm12t w) in let c := (snd (ThumbExpandImm_C (imm12t w) (cflag s1))) in
+  let op := (code_AndImmediate, [w; bit w 20; bits w 11 8; bits w 19 16; ThumbExpandImm (imm12t w); snd (ThumbExpandImm_C (imm12t w) (cflag s1))]) in
+  exists s2,
+    dp_sem cfg AND (bit w 20) (Some d) n (Op2Imm imm32 c) (begin_instr s1 op) = Ok tt s2 /\
+    ArmV6_emulate_cycle cfg s = Ok tt (AdvancePC (it_step_after s1 s2)) /\
+    pc_of (AdvancePC (it_step_after s1 s2)) = add32 (pc_of s1) 4.
+Proof. exact (andImmediateT1_step cfg s w s1). Qed.
+Print Assumptions C01_andImmediateT1_step.
+Theorem C01_bicImmediateT1_step cfg s w s1 :
+  ArmV6_fetch_instruction cfg s = Ok w s1 ->
+  0 <= w < 2 ^ 32 -> is_dp_mi_t32 0 0 0 1 w -> iset_of s1 = 1 -> opcode_len s1 = 32 -> ictx cfg s1 -> cond_holds s1 ->
+  let d := bits w 11 8 in let n := bits w 19 16 in let imm32 := ThumbExpandImm (imm12t w) in let c := (snd (ThumbExpandImm_C (imm12t w) (cflag s1))) in
+  let op := (code_BicImmediate, [w; bit w 20; bits w 11 8; bits w 19 16; ThumbExpandImm (imm12t w); snd (ThumbExpandImm_C (imm12t w) (cflag s1))]) in
+  exists s2,
+    dp_sem cfg BIC (bit w 20) (Some d) n (Op2Imm imm32 c) (begin_instr s1 op) = Ok tt s2 /\
+    ArmV6_emulate_cycle cfg s = Ok tt (AdvancePC (it_step_after s1 s2)) /\
+    pc_of (AdvancePC (it_step_after s1 s2)) = add32 (pc_of s1) 4.
+Proof. exact (bicImmediateT1_step cfg s w s1). Qed.
+Print Assumptions C01_bicImmediateT1_step.
+Theorem C01_orrImmediateT1_step cfg s w s1 :
+  ArmV6_fetch_instruction cfg s = Ok w s1 ->
+  0 <= w < 2 ^ 32 -> is_dp_mi_t32 0 0 1 0 w -> iset_of s1 = 1 -> opcode_len s1 = 32 -> ictx cfg s1 -> cond_holds s1 ->
+  let d := bits w 11 8 in let n := bits w 19 16 in let imm32 := ThumbExpandImm (imm12t w) in let c := (snd (ThumbExpandImm_C (imm12t w) (cflag s1))) in
+  let op := (code_OrrImmediate, [w; bit w 20; bits w 11 8; bits w 19 16; ThumbExpandImm (imm12t w); snd (ThumbExpandImm_C (imm12t w) (cflag s1))]) in
+  exists s2,
+    dp_sem cfg ORR (bit w 20) (Some d) n (Op2Imm imm32 c) (begin_instr s1 op) = Ok tt s2 /\
+    ArmV6_emulate_cycle cfg s = Ok tt (AdvancePC (it_step_after s1 s2)) /\
+    pc_of (AdvancePC (it_step_after s1 s2)) = add32 (pc_of s1) 4.
+Proof. exact (orrImmediateT1_step cfg s w s1). Qed.
+Print Assumptions C01_orrImmediateT1_step.
+Theorem C01_ornImmediateT1_step cfg s w s1 :
+  ArmV6_fetch_instruction cfg s = Ok w s1 ->
+  0 <= w < 2 ^ 32 -> is_dp_mi_t32 0 0 1 1 w -> iset_of s1 = 1 -> opcode_len s1 = 32 -> ictx cfg s1 -> cond_holds s1 ->
+  let d := bits w 11 8 in let n := bits w 19 16 in let imm32 := ThumbExpandImm (imm12t w) in let c := (snd (ThumbExpandImm_C (imm12t w) (cflag s1))) in
+  let op := (code_OrnImmediate, [w; bit w 20; bits w 11 8; bits w 19 16; ThumbExpandImm (imm12t w); snd (ThumbExpandImm_C (imm12t w) (cflag s1))]) in
+  exists s2,
+    dp_sem cfg ORN (bit w 20) (Some d) n (Op2Imm imm32 c) (begin_instr s1 op) = Ok tt s2 /\
+    ArmV6_emulate_cycle cfg s = Ok tt (AdvancePC (it_step_after s1 s2)) /\
+    pc_of (AdvancePC (it_step_after s1 s2)) = add32 (pc_of s1) 4.
+Proof. exact (ornImmediateT1_step cfg s w s1). Qed.
+Print Assumptions C01_ornImmediateT1_step.
+Theorem C01_eorImmediateT1_step cfg s w s1 :
+  ArmV6_fetch_instruction cfg s = Ok w s1 ->
+  0 <= w < 2 ^ 32 -> is_dp_mi_t32 0 1 0 0 w -> iset_of s1 = 1 -> opcode_len s1 = 32 -> ictx cfg s1 -> cond_holds s1 ->
+  let d := bits w 11 8 in let n := bits w 19 16 in let imm32 := ThumbExpandImm (imm12t w) in let c := (snd (ThumbExpandImm_C (imm12t w) (cflag s1))) in
+  let op := (code_EorImmediate, [w; bit w 20; bits w 11 8; bits w 19 16; ThumbExpandImm (imm12t w); snd (ThumbExpandImm_C (imm12t w) (cflag s1))]) in
+  exists s2,
+    dp_sem cfg EOR (bit w 20) (Some d) n (Op2Imm imm32 c) (begin_instr s1 op) = Ok tt s2 /\
+    ArmV6_emulate_cycle cfg s = Ok tt (AdvancePC (it_step_after s1 s2)) /\
+    pc_of (AdvancePC (it_step_after s1 s2)) = add32 (pc_of s1) 4.
+Proof. exact (eorImmediateT1_step cfg s w s1). Qed.
+Print Assumptions C01_eorImmediateT1_step.
+Theorem C01_addImmediateThumbT3_step cfg s w s1 :
+  ArmV6_fetch_instruction cfg s = Ok w s1 ->
+  0 <= w < 2 ^ 32 -> is_dp_mi_t32 1 0 0 0 w -> iset_of s1 = 1 -> opcode_len s1 = 32 -> ictx cfg s1 -> cond_holds s1 ->
+  let d := bits w 11 8 in let n := bits w 19 16 in let imm32 := ThumbExpandImm (imm12t w) in let c := 0 in
+  let op := (code_AddImmediateThumb, [w; bit w 20; bits w 11 8; bits w 19 16; ThumbExpandImm (imm12t w)]) in
+  exists s2,
+    dp_sem cfg ADD (bit w 20) (Some d) n (Op2Imm imm32 c) (begin_instr s1 op) = Ok tt s2 /\
+    ArmV6_emulate_cycle cfg s = Ok tt (AdvancePC (it_step_after s1 s2)) /\
+    pc_of (AdvancePC (it_step_after s1 s2)) = add32 (pc_of s1) 4.
+Proof. exact (addImmediateThumbT3_step cfg s w s1). Qed.
+Print Assumptions C01_addImmediateThumbT3_step.
+Theorem C01_adcImmediateT1_step cfg s w s1 :
+  ArmV6_fetch_instruction cfg s = Ok w s1 ->
+  0 <= w < 2 ^ 32 -> is_dp_mi_t32 1 0 1 0 w -> iset_of s1 = 1 -> opcode_len s1 = 32 -> ictx cfg s1 -> cond_holds s1 ->
+  let d := bits w 11 8 in let n := bits w 19 16 in let imm32 := ThumbExpandImm (imm12t w) in let c := 0 in
+  let op := (code_AdcImmediate, [w; bit w 20; bits w 11 8; bits w 19 16; ThumbExpandImm (imm12t w)]) in
+  exists s2,
+    dp_sem cfg ADC (bit w 20) (Some d) n (Op2Imm imm32 c) (begin_instr s1 op) = Ok tt s2 /\
+    ArmV6_emulate_cycle cfg s = Ok tt (AdvancePC (it_step_after s1 s2)) /\
+    pc_of (AdvancePC (it_step_after s1 s2)) = add32 (pc_of s1) 4.
+Proof. exact (adcImmediateT1_step cfg s w s1). Qed.
+Print Assumptions C01_adcImmediateT1_step.
+Theorem C01_sbcImmediateT1_step cfg s w s1 :
+  ArmV6_fetch_instruction cfg s = Ok w s1 ->
+  0 <= w < 2 ^ 32 -> is_dp_mi_t32 1 0 1 1 w -> iset_of s1 = 1 -> opcode_len s1 = 32 -> ictx cfg s1 -> cond_holds s1 ->
+  let d := bits w 11 8 in let n := bits w 19 16 in let imm32 := ThumbExpandImm (imm12t w) in let c := 0 in
+  let op := (code_SbcImmediate, [w; bit w 20; bits w 11 8; bits w 19 16; ThumbExpandImm (imm12t w)]) in
+  exists s2,
+    dp_sem cfg SBC (bit w 20) (Some d) n (Op2Imm imm32 c) (begin_instr s1 op) = Ok tt s2 /\
+    ArmV6_emulate_cycle cfg s = Ok tt (AdvancePC (it_step_after s1 s2)) /\
+    pc_of (AdvancePC (it_step_after s1 s2)) = add32 (pc_of s1) 4.
+Proof. exact (sbcImmediateT1_step cfg s w s1). Qed.
+Print Assumptions C01_sbcImmediateT1_step.
+Theorem C01_subImmediateThumbT3_step cfg s w s1 :
+  ArmV6_fetch_instruction cfg s = Ok w s1 ->
+  0 <= w < 2 ^ 32 -> is_dp_mi_t32 1 1 0 1 w -> iset_of s1 = 1 -> opcode_len s1 = 32 -> ictx cfg s1 -> cond_holds s1 ->
+  let d := bits w 11 8 in let n := bits w 19 16 in let imm32 := ThumbExpandImm (imm12t w) in let c := 0 in
+  let op := (code_SubImmediateThumb, [w; bit w 20; bits w 11 8; bits w 19 16; ThumbExpandImm (imm12t w)]) in
+  exists s2,
+    dp_sem cfg SUB (bit w 20) (Some d) n (Op2Imm imm32 c) (begin_instr s1 op) = Ok tt s2 /\
+    ArmV6_emulate_cycle cfg s = Ok tt (AdvancePC (it_step_after s1 s2)) /\
+    pc_of (AdvancePC (it_step_after s1 s2)) = add32 (pc_of s1) 4.
+Proof. exact (subImmediateThumbT3_step cfg s w s1). Qed.
+Print Assumptions C01_subImmediateThumbT3_step.
+Theorem C01_rsbImmediateT2_step cfg s w s1 :
+  ArmV6_fetch_instruction cfg s = Ok w s1 ->
+  0 <= w < 2 ^ 32 -> is_dp_mi_t32 1 1 1 0 w -> iset_of s1 = 1 -> opcode_len s1 = 32 -> ictx cfg s1 -> cond_holds s1 ->
+  let d := bits w 11 8 in let n := bits w 19 16 in let imm32 := ThumbExpandImm (imm12t w) in let c := 0 in
+  let op := (code_RsbImmediate, [w; bit w 20; bits w 11 8; bits w 19 16; ThumbExpandImm (imm12t w)]) in
+  exists s2,
+    dp_sem cfg RSB (bit w 20) (Some d) n (Op2Imm imm32 c) (begin_instr s1 op) = Ok tt s2 /\
+    ArmV6_emulate_cycle cfg s = Ok tt (AdvancePC (it_step_after s1 s2)) /\
+    pc_of (AdvancePC (it_step_after s1 s2)) = add32 (pc_of s1) 4.
+Proof. exact (rsbImmediateT2_step cfg s w s1). Qed.
+Print Assumptions C01_rsbImmediateT2_step.
+
+(* no hypothesis left about the stages of the cycle: ARM state, flat memory map (PMSA, MPU off), word-aligned PC; the instruction is
+   whatever word the memory holds at the PC (Props/C13step.v discharges the fetch) *)
+Theorem C01_add_imm_a1_closed cfg s :
+  flat cfg s -> ictx cfg s -> iset_of s = 0 -> pc_of s mod 4 = 0 ->
+  let w := fetched_arm s in let s1 := after_fetch_arm s in
+  is_add_imm_a1 w -> cond_holds s1 ->
+  let d := bits w 15 12 in let n := bits w 19 16 in let imm32 := ARMExpandImm (bits w 11 0) in
+  let op := (code_AddImmediateArm, [w; bit w 20; d; n; imm32]) in
+  exists s2,
+    dp_sem cfg ADD (bit w 20) (Some d) n (Op2Imm imm32 0) (begin_instr s1 op) = Ok tt s2 /\
+    ArmV6_emulate_cycle cfg s = Ok tt (AdvancePC (it_step_after s1 s2)) /\
+    pc_of (AdvancePC (it_step_after s1 s2)) = add32 (pc_of s) 4.
+Proof. exact (add_imm_a1_closed cfg s). Qed.
+Print Assumptions C01_add_imm_a1_closed.
+
+(* the same for ADD{S} Rd, Rn, #imm3 (Thumb T1), any IT position: Thumb state, flat memory map, halfword-aligned PC *)
+Theorem C01_add_imm_t1_closed cfg s :
+  flat cfg s -> ictx cfg s -> iset_of s = 1 -> pc_of s mod 2 = 0 ->
+  let w := fetched_t16 s in let s1 := after_fetch_t16 s in
+  is_add_imm_t1 w -> cond_holds s1 ->
+  let d := bits w 2 0 in let n := bits w 5 3 in let imm32 := bits w 8 6 in
+  let op := (code_AddImmediateThumb, [w; not_in_it s1; d; n; imm32]) in
+  exists s2,
+    dp_sem cfg ADD (not_in_it s1) (Some d) n (Op2Imm imm32 0) (begin_instr s1 op) = Ok tt s2 /\
+    ArmV6_emulate_cycle cfg s = Ok tt (AdvancePC (it_step_after s1 s2)) /\
+    pc_of (AdvancePC (it_step_after s1 s2)) = add32 (pc_of s) 2.
+Proof. exact (add_imm_t1_closed cfg s). Qed.
+Print Assumptions C01_add_imm_t1_closed.
+
+(* and for AND{S} Rd, Rn, #const (Thumb, 32-bit T1): the two halfwords at the PC *)
+Theorem C01_and_imm_t1_closed cfg s :
+  flat cfg s -> ictx cfg s -> iset_of s = 1 -> pc_of s mod 2 = 0 ->
+  let w := fetched_t32 s in let s1 := after_fetch_t32 s in
+  is_dp_mi_t32 0 0 0 0 w -> cond_holds s1 ->
+  let d := bits w 11 8 in let n := bits w 19 16 in let imm32 := ThumbExpandImm (imm12t w) in
+  let c := snd (ThumbExpandImm_C (imm12t w) (cflag s1)) in
+  let op := (code_AndImmediate, [w; bit w 20; bits w 11 8; bits w 19 16; ThumbExpandImm (imm12t w); snd (ThumbExpandImm_C (imm12t w) (cflag s1))]) in
+  exists s2,
+    dp_sem cfg AND (bit w 20) (Some d) n (Op2Imm imm32 c) (begin_instr s1 op) = Ok tt s2 /\
+    ArmV6_emulate_cycle cfg s = Ok tt (AdvancePC (it_step_after s1 s2)) /\
+    pc_of (AdvancePC (it_step_after s1 s2)) = add32 (pc_of s) 4.
+Proof. exact (and_imm_t1_closed cfg s). Qed.
+Print Assumptions C01_and_imm_t1_closed.
 
 (* the hypotheses are satisfiable: ADDSNE r2, r1, #4 (ARM, Z clear) and ADD r1, r2, #3 as the last instruction of an IT EQ block *)
 Example C01_add_imm_a1_step_example :
